@@ -185,6 +185,7 @@ func VNewAlloc(ev *VEvents) (*Allocation, *VPacketConn, *VPacketConn) {
 	a.RelayAddr = VUDPAddr4()
 	a.addressFamily = 0x01
 	a.lifetimeTimer = time.AfterFunc(600*time.Second, func() {})
+	vGuard(a.permissions, &a.permissionsLock, "C18.permission_table_guarded_by_its_lock")
 	return a, turn, relay
 }
 
@@ -212,6 +213,9 @@ func VNewManager(failAlloc, veto bool) *VMgrEnv {
 				return nil, nil, errNilRelaySocket
 			}
 			addr := &net.UDPAddr{IP: VIP4(), Port: VPort()}
+			if env.RelayPort != 0 {
+				addr.Port = env.RelayPort
+			}
 			pc := &VPacketConn{Name: "relay", Local: addr}
 			env.Relays = append(env.Relays, pc)
 			return pc, addr, nil
@@ -253,6 +257,7 @@ func VNewManager(failAlloc, veto bool) *VMgrEnv {
 	m, err := NewManager(cfg)
 	vAssume(err == nil)
 	env.M = m
+	vGuard(m.allocations, &m.lock, "C18.allocation_table_guarded_by_manager_lock")
 	return env
 }
 
